@@ -23,6 +23,22 @@ CHECKS = {
    text="Same engine; histories of accepted appends laid out across block-cache and read-buffer boundaries and 1-12 segments; at 3-6 checkpoints (sealed-segment index flush held, released, after reopen) every stream and partition is scanned from a sweep of start positions in both directions with batch sizes 1..len+5 and compared with the model (forward: exactly model[start..]; reverse: set equality with model[..=start], transaction-contiguous groups, decreasing order).",
    note="The sweep is exhaustive in start position only for streams/partitions of <=12 events, sampled above. Known finding listed: reverse scans starting inside a transaction return later siblings.",
    technique=TECH + ": seeded histories plus scan-parameter sweeps at scheduler-controlled checkpoints (index flush held/released, reopen) against a reference model", ref="§4 C03"),
+ "C04": dict(engine="storesim", cat="exploration",
+   text="Gated scheduler of engine A: client tasks, the writer threads (parked at every hook point inside handle_write: after each event, after the commit record, after the buffer flush), the sync timer and the index-flush jobs are entities of one seeded scheduler, one of which runs per step. Appenders issue mostly multi-event transactions (some failing half way), readers run lookups and scans while the writer is parked inside a transaction; process-crash images are taken at those points and reopened. Every returned event must belong to a successful transaction of the serial order and every returned group must contain all siblings that pass the filter.",
+   note="Between two hook points a writer runs atomically; power-loss cuts inside a transaction are C05's enumeration, this check takes process-crash images (what reached write(2)) at the parked points.",
+   technique=TECH + ": seeded baton scheduler over client tasks and gated writer threads, readers interleaved inside transactions, crash images at parked points", ref="§4 C04"),
+ "C15": dict(engine="storesim", cat="exploration",
+   text="Gated scheduler; 1-3 appenders and 1-3 readers on minimum-size segments. The writer is parked at six rollover stages and around sync while readers run complete operations; iterator construction is parked at its yield hook while a whole rollover runs. Invocation/response are stamped with the scheduler's step counter: a read invoked after an acknowledgement was observed must see it (event lookup, versions, sequences, scans), one reader's observations never go backwards, scans are gapless prefixes of the final serial order and the final state equals it.",
+   note="Versions learnt from a rejected append's error (which reflects written-but-unsynced state) are not counted as observations. reader_threads = 1.",
+   technique=TECH + ": seeded baton scheduler (uniform / writer-starved / readers-preferred-inside-rollover) with step-stamped histories checked for real-time visibility and per-reader monotonicity", ref="§4 C15"),
+ "C16": dict(engine="storesim", cat="exploration",
+   text="Gated scheduler; 2-6 clients race optimistic appends (Exact/Empty from what each client last observed, some over two streams or with an expected partition sequence) on 1-3 hot streams. History oracle: successes ordered by (partition, first sequence) replay on the model with exactly the returned positions; every rejection must be justified at a point of that order compatible with its invocation/response steps; the final observable state equals the serial execution.",
+   note="Serial order is taken per partition (transactions are single-partition).",
+   technique=TECH + ": seeded baton scheduler over racing clients, serial-order replay of the recorded history on a reference model", ref="§4 C16"),
+ "C20": dict(engine="storesim", cat="exploration",
+   text="Gated scheduler with the simulated sync timer (the syncer thread is replaced by FlushPoll events at the deadlines it computes); clients are starved between the writer's reply and their next poll while later requests, rollovers and ticks are processed. Once the last operation is issued the scheduler turns fair and every append future must resolve within 2000 steps / 32 sync_idle_intervals of simulated time (bounded liveness after faults stop).",
+   note="Healthy disk only (no injected I/O errors). At most one FlushPoll is outstanding per writer (the timer cannot flood the queue in zero simulated time).",
+   technique=TECH + ": seeded baton scheduler with simulated clock/timer, bounded-progress liveness check after the schedule turns fair", ref="§4 C20"),
  "C05": dict(engine="storesim", cat="fault_enumeration",
    text="Same engine; appends are submitted without waiting for their acknowledgement under sync policies that leave an unsynced tail. At 2-5 crash instants per history the harness builds, from the fsync ledger, the power-loss image for every cut k of the live segment's unsynced tail (bytes written up to k + durable bytes after k; every byte when the tail is <= 4 KiB and under the per-instant cap, else record/field boundaries +-1 and PRNG cuts), reopens each image with the real DatabaseBuilder::open and requires: open succeeds, state = model after a per-bucket prefix of the written transactions that contains every acknowledged one, all read APIs work, three further appends continue the numbering without gap or reuse, a second reopen succeeds.",
    note="Enumeration is exhaustive per sampled crash instant only (reported per run); images are built by the harness from hook records, not by the kernel; sealed-segment index files are taken as written (C06 varies them).",
